@@ -1752,6 +1752,13 @@ class CallEval:
             if val.t.k == 'opt':
                 return SV(val.t, {'none': z3.Or(z3.Not(has), val.z['none']), 'v': val.z['v']})
             return SV(OPT(val.t), {'none': z3.Not(has), 'v': val.z})
+        if t.k == 'str' and m in ('join', 'format', 'zfill', 'strip', 'lower', 'upper'):
+            for a in n.args:
+                try:
+                    self.e.ev(a)
+                except (Unsupported, KeyError):
+                    pass
+            return SV(STR, self.ctx.fresh(STR, 'strop'))       # text whose content no obligation depends on
         if t.k == 'str':
             if m == 'startswith':
                 a = self.e.ev(n.args[0])
